@@ -22,7 +22,7 @@ pub const UNARY: &[&str] = &[
   "distinct_until_changed", "scan", "reduce", "count", "sum", "sum_and_count", "min", "max", "all", "contains",
   "default_if_empty", "ignore_elements", "start_with", "buffer_with_count", "window_with_count", "group_by",
   "materialize", "dematerialize", "mat_demat", "tap", "map_to_any", "flat_map", "on_error_resume_next", "retry",
-  "retry_when", "time_interval", "timestamp",
+  "retry_when", "time_interval", "timestamp", "ref_count", "replay",
 ];
 pub const MULTI: &[&str] = &["merge", "zip", "concat", "amb", "combine_latest", "sequence_equal"];
 pub const TRIG: &[&str] = &["take_until", "skip_until", "sample", "switch_on_next"];
@@ -373,6 +373,8 @@ pub fn build(j: &Json, ctx: &Ctx) -> Option<Observable<'static, Val>> {
         _ => err_id(&e) < 5,
       }
     }),
+    "ref_count" => o.ref_count().observable(),
+    "replay" => o.replay().observable(),
     "time_interval" => o.time_interval().map(|d| Val::Int(d.as_millis() as i64)),
     "timestamp" => o.timestamp().map(|(_, v)| v),
     "observe_on" if ctx.allow_threads => o.observe_on(schedulers::new_thread_scheduler()),
